@@ -12,28 +12,36 @@ ASSUMPTIONS = ["packet index below 2^48 (ROC wrap needs 2^33 srtp_protect calls 
                "key identity is observed as the first four octets of the session encryption key (collision probability 2^-32 per pair)"]
 
 
-def scripts(rng, tier):
+def scripts(rng, tier, n=None):
     out = []
-    n = 14 if tier == "quick" else 150
+    n = n or (14 if tier == "quick" else 150)
     for k in range(n):
         wildcard = rng.random() < 0.4
         ssrcs = [rng.randrange(2, 1 << 32) for _ in range(3 if wildcard else 1)]
         p = rand_policy(rng, ssrc=ssrcs[0], valid=True)
-        p.rtp = (rng.choice([ICM128, ICM256]),) + p.rtp[1:]
-        p.rtp = (p.rtp[0], 30 if p.rtp[0] == ICM128 else 46) + p.rtp[2:5] + (p.rtp[5] | 1,)
-        p.rtcp = (ICM128, 30) + p.rtcp[2:5] + (3,)
-        kl = 46 if p.rtp[0] == ICM256 else 30
-        p.keys = [(rand_key(rng, kl), m) for (_, m) in p.keys]
+        aead = p.rtp[0] in (GCM128, GCM256)
+        if not aead:
+            p.rtp = (rng.choice([ICM128, ICM256]),) + p.rtp[1:]
+            p.rtp = (p.rtp[0], 30 if p.rtp[0] == ICM128 else 46) + p.rtp[2:5] + (p.rtp[5] | 1,)
+            p.rtcp = (ICM128, 30) + p.rtcp[2:5] + (3,)
+            kl = 46 if p.rtp[0] == ICM256 else 30
+            p.keys = [(rand_key(rng, kl), m) for (_, m) in p.keys]
         p.allow_repeat = rng.random() < 0.25
         L = [p.line(1, ssrc_type=SSRC_ANY_OUT if wildcard else SSRC_SPECIFIC), "create 1 1"]
         if rng.random() < 0.5:
             L.append(pkt_op("protect_rtcp", 1, rtcp_packet(ssrcs[0], b"\0" * 8), extra=200))
             L.append(f"poke_rtcp 1 0 {H(ssrcs[0])} {H(rng.choice([0x7ffffffa, 0x7ffffffd, 0x7ffffffe, 5]))}")
         base = {s: rng.choice([0, 65500, 100]) for s in ssrcs}
+        roc = {}
         for i in range(40 if tier == "quick" else 200):
             s = rng.choice(ssrcs)
             r = rng.random()
-            if r < 0.25:
+            if r < 0.06 and not wildcard:
+                # the application moves the sender's rollover counter ahead (index-advance path of srtp_protect);
+                # the next sequence numbers are then sent, and re-sent, under the new ROC
+                roc[s] = roc.get(s, 0) + rng.choice([1, 1, 2, 300])
+                L.append(f"setroc 1 {H(s)} {H(roc[s])}")
+            elif r < 0.25:
                 rp = rtcp_packet(s, rand_key(rng, 12))
                 mi = rng.randrange(len(p.keys)) if p.use_mki else 0
                 L.append(pkt_op("protect_rtcp", 1, rp, extra=200, mki_index=mi)); L.append(f"peek 1 0 {H(s)}"); L.append(f"# C {s:x}")
@@ -98,4 +106,6 @@ def monitor(script, c):
 
 def families(tier, seed):
     rng = random.Random(seed * 1000 + 8)
-    return [Family("sender-histories", scripts(rng, tier), monitor=monitor)]
+    return [Family("sender-histories", scripts(rng, tier), monitor=monitor),
+            # AES-GCM senders (OpenSSL configuration; the driver wraps the GCM cipher types too): a repeated (key, IV) is fatal for GCM
+            Family("gcm-sender-histories", with_aead(scripts, random.Random(seed * 1000 + 108), tier, n=(8 if tier == "quick" else 100)), monitor=monitor, config="openssl")]
